@@ -18,6 +18,8 @@ def built(model, route='A'):
     fm = bd.build(model, route)
     engine.tick(sh.size(model) + len(sh.relations(model)) + len(model[1]))
     fails = []
+    if bd.is_poisoned(model):
+        return fm, fails       # ill-formed on purpose: nothing to conform to
     try:
         ob = bd.observe(fm)
         probs = bd.wellformed(fm)
@@ -98,6 +100,24 @@ def k2_subset(names=XYZ):
         add((op, ('NOT', x, None), ('NOT', y, None)))
     for op in ops:
         add((op, (op, x, y), (op, y, z)))
+    return tuple(out)
+
+
+@functools.lru_cache(maxsize=None)
+def dag_trees(names=XYZ):
+    """Logical trees (NOT AND OR IMPLIES EQUIVALENCE only: expressible in every format) in which an
+    operator sub-tree occurs twice; built with shared Node objects by the XD driver."""
+    x, y, z = names
+    subs = [('NOT', x, None), ('OR', x, y), ('AND', x, y), ('IMPLIES', x, y)]
+    out = []
+    for sub in subs:
+        for op in ('AND', 'OR', 'IMPLIES', 'EQUIVALENCE'):
+            out.append((op, sub, sub))
+            out.append((op, ('OR', sub, z), sub))
+            out.append((op, sub, ('AND', z, sub)))
+            out.append(('NOT', (op, sub, sub), None))
+    out.append(('AND', ('OR', x, ('NOT', z, None)), ('OR', y, ('NOT', z, None))))
+    out.append(('OR', ('AND', ('NOT', x, None), ('NOT', z, None)), ('AND', y, ('NOT', z, None))))
     return tuple(out)
 
 
